@@ -1,9 +1,73 @@
-"""Self-test run by setup.sh: imports every property module that exists."""
-import importlib, os, sys
-from mc import core
+"""Self-test run by setup.sh: imports every property module and cross-checks the oracle
+formulations against each other (a disagreement between two formulations of an oracle is a
+harness error, never a violation)."""
+import importlib
+import itertools
+import os
+import sys
+
+from mc import core, e2, e4, xmlinfo, ruleinfo
+
 here = os.path.join(os.path.dirname(__file__), "props")
 n = 0
 for f in sorted(os.listdir(here)):
     if f.startswith("c") and f.endswith(".py"):
-        importlib.import_module("mc.props." + f[:-3]); n += 1
+        importlib.import_module("mc.props." + f[:-3])
+        n += 1
 print("selftest: imported", n, "property modules")
+
+# 1. automaton pipeline vs the direct regex matcher, on every rule of the shipped table
+tot = 0
+for rn, rd in ruleinfo.table().items():
+    ra = e2.RuleAutomata(rn, rd[1])
+    L = e2.choose_L(len(ra.alphabet), 800)
+    for w in e2.words_upto(ra.alphabet, L):
+        tot += 1
+        a, b = ra.strict.accepts(w), e2.regex_accepts(ra.re_strict, w)
+        c, d = ra.lenient.accepts(w), e2.regex_accepts(ra.re_lenient, w)
+        if a != b or c != d or (a and not c):
+            sys.stderr.write(f"HARNESS-ERROR: DFA and regex matcher disagree on {rn} {w}: {a} {b} {c} {d}\n")
+            sys.exit(2)
+    # W really separates all states
+    W = ra.strict.characterisation_set()
+    sigs = set()
+    for s in range(ra.strict.n):
+        sigs.add(tuple(ra.strict.accept[ra.strict.run_from(s, w)] for w in W))
+    if len(sigs) != ra.strict.n:
+        sys.stderr.write(f"HARNESS-ERROR: characterisation set of {rn} does not separate all states\n")
+        sys.exit(2)
+print("selftest: DFA == regex matcher on", tot, "words; characterisation sets separate all states")
+
+# 2. numeric envelopes contain what the Python parsers accept (so that 'must-reject' never over-demands)
+alpha = list("019-+.eE_ nai") + ["٣"]
+cnt = 0
+for k in range(0, 4):
+    for t in itertools.product(alpha, repeat=k):
+        s = "".join(t)
+        cnt += 1
+        try:
+            float(s)
+            ok = True
+        except ValueError:
+            ok = False
+        if ok and e4.float_envelope(s) is None:
+            sys.stderr.write(f"HARNESS-ERROR: float() accepts {s!r} outside the envelope\n")
+            sys.exit(2)
+        try:
+            int(s)
+            ok = True
+        except ValueError:
+            ok = False
+        if ok and e4.int_envelope(s) is None:
+            sys.stderr.write(f"HARNESS-ERROR: int() accepts {s!r} outside the envelope\n")
+            sys.exit(2)
+print("selftest: numeric envelopes checked on", cnt, "strings")
+
+# 3. own XPath normalize-space vs split/join on XML whitespace
+for t in itertools.product(["a", " ", "\t", "\n", "\r", "\xa0"], repeat=5):
+    s = "".join(t)
+    exp = " ".join(x for x in s.replace("\t", " ").replace("\n", " ").replace("\r", " ").split(" ") if x)
+    if xmlinfo.normalize_space(s) != exp:
+        sys.stderr.write(f"HARNESS-ERROR: normalize_space formulations disagree on {s!r}\n")
+        sys.exit(2)
+print("selftest: normalize-space formulations agree")
